@@ -25,6 +25,7 @@ def run(ctx, res):
     r2.rule_unconditional(S, res, {"online"}, cs)
     r2.rule_per_element(S, res, {"online"}, cs)
     r2.rule_conjunct(S, res, {"online"}, cs)
+    r2.rule_adaptor_polarity(S, res, {"online"}, cs)
     r2.rule_conflict_covers_own(S, res, cs)
     r2.rule_check_before_send(S, res, {"online"}, cs)
     r2.rule_verified(S, res, {"online"}, labs)
